@@ -145,6 +145,15 @@ SeedsSeg333 == {<<>>, << <<KPaint,0,13851,1,2>>, <<KPaint,1,113467392,2,2>> >>}
 SeedsSeg5s == {
    << <<KPaint,0,1,1,2>>, <<KPaint,0,4,2,4>>, <<KPaint,1,3,3,2>>, <<KPaint,2,1,5,6>>, <<KAddEdge,1,5,0,0>>, <<KPaint,1,4,4,4>> >>,
    << <<KPaint,0,1,1,2>>, <<KPaint,2,1,3,2>>, <<KPaint,1,6,2,4>>, <<KPaint,2,6,4,4>> >> }
+\* feature-switching suites: states in which a feature is REGISTERED AND ACTIVE BUT STALE (disabled, edited, enabled
+\* again without recomputation) - from there "enable with recomputation" must still yield the reference values
+SeedsFeatSeg == {
+   << <<KPaint,0,3,1,2>>, <<KPaint,1,1,2,2>>, <<KDisable,1,0,0,0>>,  <<KPaint,1,2,2,2>>, <<KEnable,1,0,0,0>> >>,
+   << <<KPaint,0,3,1,2>>, <<KPaint,1,1,2,2>>, <<KDisable,2,0,0,0>>,  <<KPaint,1,2,2,2>>, <<KEnable,2,0,0,0>> >>,
+   << <<KPaint,0,3,1,2>>, <<KPaint,1,1,2,2>>, <<KDisable,16,0,0,0>>, <<KPaint,1,2,2,2>>, <<KEnable,16,0,0,0>> >> }
+SeedsFeatNs == {
+   << <<KAddNode,1,0,1,0>>, <<KAddNode,2,1,1,0>>, <<KDisable,8,0,0,0>>,  <<KDelEdge,1,2,0,0>>, <<KEnable,8,0,0,0>> >>,
+   << <<KAddNode,1,0,1,0>>, <<KAddNode,2,1,1,0>>, <<KDisable,40,0,0,0>>, <<KDelEdge,1,2,0,0>>, <<KEnable,40,0,0,0>> >> }
 RECURSIVE RunPath(_, _)
 RunPath(s, p) == IF p = <<>> THEN s ELSE RunPath(Trim(StepOrd(s, Head(p), 1).s), Tail(p))
 
@@ -187,7 +196,9 @@ AllX == LET o == Obs(S) IN AllXof(o, PF(o))
 
 \* one pass over all transitions; a failing property prints its name and the call
 Chk(name, b, x) == b \/ ~PrintT(<<"FAIL", name, x.c, path>>)
-Inv_Valid == Valid(Obs(S))
+\* (enabling WITHOUT recomputation is allowed to leave stale values: paths through such a call are exempt)
+NoRecompute(p) == \E k \in 1..Len(p) : p[k][1] = KEnable /\ p[k][3] = 0
+Inv_Valid == NoRecompute(path) \/ Valid(Obs(S))
 Inv_All == LET o == Obs(S)
                pf == PF(o)
            IN \A x \in AllXof(o, pf) :
@@ -202,6 +213,7 @@ Inv_C03 == \A x \in AllX : P_C03(x)
 Inv_C04 == \A x \in AllX : P_C04(x)
 Inv_C05 == \A x \in AllX : P_C05(x)
 Inv_C06 == \A x \in AllX : P_C06(x)
+Inv_C10 == \A x \in AllX : Chk("C10", P_C10(x), x)
 Inv_C11 == \A x \in AllX : P_C11(x)
 Inv_C20 == \A x \in AllX : P_C20(x)
 
